@@ -79,6 +79,27 @@ def scaled_values():
                 yield 'scaled', values.chain(rec, depth, leaf)
 
 
+def string_placements():
+    """Long (splittable) strings in every kind of position, incl. keyword arguments of call-style
+    printers whose name length + 1 is not a multiple of the indent."""
+    import types
+    from .fixtures import Call, NT
+    for s in ('word ' * 10, 'x' * 70, b'by tes ' * 9, 'a/b c ' * 9):
+        yield 'strpos', s
+        yield 'strpos', [s, 1]
+        yield 'strpos', {'k': s}
+        yield 'strpos', {s: 1}
+        yield 'strpos', Call(s)
+        yield 'strpos', Call(1, s)
+        for name in ('a', 'kw', 'body', 'message'):
+            yield 'strpos', Call(1, **{name: s})
+        yield 'strpos', NT(s, 1)
+        yield 'strpos', NT(1, s)
+        yield 'strpos', types.SimpleNamespace(body=s, x=1)
+        yield 'strpos', [{'key': Call(kw=[s])}]
+        yield 'strpos', ValueError(s, 1)
+
+
 def everything(tree_nodes):
     fixtures.register()
-    return itertools.chain(builtin_trees(tree_nodes), scaled_values(), stdlib_values(), subclass_values(), commented_values(), call_values())
+    return itertools.chain(builtin_trees(tree_nodes), scaled_values(), string_placements(), stdlib_values(), subclass_values(), commented_values(), call_values())
